@@ -2749,6 +2749,9 @@ namespace chaiscript {
       AST_NodePtr parse(const std::string &t_input, const std::string &t_fname) override {
 #ifdef CHAISCRIPT_VERIF
         chaiscript::verif::last_parse_input_size = t_input.size();
+        if (chaiscript::verif::first_parse_input_size == static_cast<std::size_t>(-1)) {
+          chaiscript::verif::first_parse_input_size = t_input.size();
+        }
 #endif
         ChaiScript_Parser<Tracer, Optimizer> parser(m_tracer, m_optimizer);
         return parser.parse_internal(t_input, t_fname);
